@@ -1,21 +1,22 @@
 #!/bin/bash
-# usage: tools/seedconfirm.sh Cxx  — confirm a sub-agent's seeded change in its scratch worktree: demo fails with the change, passes without; suite passes with the change
-id="$1"; wt=/tmp/seed/$id; out=/tmp/seed-out/$id
+# usage: tools/seedconfirm.sh Cxx — confirm a sub-agent's seeded change from its DELIVERABLES only, in a fresh scratch worktree of /repo HEAD:
+# the demo passes without the patch, fails with it; the suite (guard off) passes with the patch. The scratch worktree is removed afterwards.
+id="$1"; out=/tmp/seed-out/$id; wt=/tmp/seedchk-$id
 export GOFLAGS=-mod=mod GOPROXY=off
+git -C /repo worktree add -q --detach "$wt" HEAD || exit 2
+trap 'git -C /repo worktree remove --force "$wt"' EXIT
 cd "$wt" || exit 2
-demo=$(git status --short | grep '^??' | awk '{print $2}' | grep seed_demo | head -1)
-[ -z "$demo" ] && { echo "no demo file in worktree"; exit 2; }
-dir=$(dirname "$demo")
-pat='SeedDemo'
-race=""; grep -q '"race"\|-race' "$out/meta.json" 2>/dev/null && race="-race"
-echo "== demo WITH change ($demo, dir $dir) $race"
-(cd "$dir" && go test $race -vet=off -count=1 -run "$pat" . 2>&1 | tail -5)
-git stash -q
-echo "== demo WITHOUT change"
-(cd "$dir" && go test $race -vet=off -count=1 -run "$pat" . 2>&1 | tail -3)
-git stash pop -q
-echo "== suite WITH change (demo moved aside)"
-mv "$demo" /tmp/seed-out/$id/.demo.bak
-go build ./... && go test -vet=off -count=1 ./... 2>&1 | grep -v "^ok\|no test files" | tail -5
-mv /tmp/seed-out/$id/.demo.bak "$demo"
-echo "== patch applies to /repo HEAD:"; git -C /repo apply --check "$out/patch.diff" && echo yes
+dir=$(python3 -c "import json;print(json.load(open('$out/meta.json')).get('demo_dir','.') or '.')" 2>/dev/null)
+case "$dir" in /tmp/seed/$id*) dir=".${dir#/tmp/seed/$id}";; esac
+case "$dir" in *"root"*|"vuego"|"") dir=".";; esac
+[ -d "$dir" ] || dir="."
+pkgline=$(grep -m1 '^package ' "$out/seed_demo_test.go" | awk '{print $2}')
+case "$pkgline" in formatter*) dir=formatter;; markdown*) dir=markdown;; esac
+cp "$out/seed_demo_test.go" "$dir/seed_demo_test.go"
+race=""; grep -q -- '-race' "$out/meta.json" 2>/dev/null && race="-race"
+echo "== demo WITHOUT patch (dir $dir) $race"; (cd "$dir" && go test $race -vet=off -count=1 -run 'SeedDemo' . 2>&1 | tail -2)
+git apply "$out/patch.diff" || { echo "PATCH DOES NOT APPLY"; exit 2; }
+echo "== files changed by patch:"; git status --short | grep -v seed_demo
+echo "== demo WITH patch"; (cd "$dir" && go test $race -vet=off -count=1 -run 'SeedDemo' . 2>&1 | grep -E "^(--- FAIL|FAIL|ok|PASS)" | head -4)
+rm "$dir/seed_demo_test.go"
+echo "== suite WITH patch:"; go build ./... && go test -vet=off -count=1 ./... 2>&1 | grep -v "^ok\|no test files" | tail -5; echo "(end suite)"
